@@ -495,13 +495,16 @@ func (m *Manager) acquireTasks(envId uid.ID, taskDescriptors Descriptors) (err e
 	undeployableCriticalDescriptors := make(Descriptors, 0)
 
 	deployedTasks := make(DeploymentMap)
+
+	// The deployment lock is released unconditionally further down, so it must be taken whether or not there is
+	// anything left to launch (with task reuse every descriptor may have claimed an existing task).
+	m.deployMu.Lock()
+
 	if len(tasksToRun) > 0 {
 		// Alright, so we have some descriptors whose requirements should be met with
 		// new Tasks we're about to deploy here.
 		// First we ask Mesos to revive offers and block until done, then upon receiving
 		// the offers, we ask Mesos to run the required roles - if any.
-
-		m.deployMu.Lock()
 
 	DEPLOYMENT_ATTEMPTS_LOOP:
 		for attemptCount := 0; attemptCount < MAX_ATTEMPTS_PER_DEPLOY_REQUEST; attemptCount++ {
